@@ -20,31 +20,6 @@ from .core import Sym, sx, parse_sx
 
 KEYS = ["a", "b", "c", "n", "m", "e"]
 
-_FIXED_H = []
-
-
-def fixed_c20h():
-    """whether the tree under test carries the repair of C20-h (LazyStackedTensorDict._multithread_rebuild looks inside a
-    tensorclass out=): read off the source with ast, never by importing it"""
-    if not _FIXED_H:
-        import ast
-        from .core import REPO
-        val = False
-        try:
-            src = open(os.path.join(REPO, "tensordict", "_lazy.py")).read()
-            for node in ast.walk(ast.parse(src)):
-                if isinstance(node, ast.ClassDef) and node.name == "LazyStackedTensorDict":
-                    for f in node.body:
-                        if isinstance(f, ast.FunctionDef) and f.name == "_multithread_rebuild":
-                            for c in ast.walk(f):
-                                if isinstance(c, ast.Call) and getattr(c.func, "id", None) == "is_tensorclass" and c.args \
-                                        and getattr(c.args[0], "id", None) == "out":
-                                    val = True
-        except Exception:  # noqa: BLE001
-            val = False
-        _FIXED_H.append(val)
-    return _FIXED_H[0]
-
 
 # ================================================================== generation of abstract cases
 class Ctr:
@@ -555,7 +530,7 @@ def model_line(case, ran=None):
         name = case.get("sd_name")
         return sx([Sym("lz"), Sym(mode), opts_sx(o),
                    [I.LAZY_SELF_ID, sd, Sym("none") if name is None else [Sym("some"), name], [tree_sx(m) for m in case["members"]]],
-                   ops, out, names_sx(o), o["con"], o["propagate"], model_nones(case, case["members"]), pi, fixed_c20h()])
+                   ops, out, names_sx(o), o["con"], o["propagate"], model_nones(case, case["members"]), pi])
     if kindname == "sub" and o["checked"]:
         # a _SubTensorDict always writes through result.set(...), i.e. validated: modelled as checked=False (except for the
         # device / out= branch, which reads `checked` itself: not modelled there)
@@ -1322,7 +1297,7 @@ def main(R):
                      "batch_size= is passed as torch.Size and device= as torch.device (a list / str never compares equal to out.batch_size / out.device)",
                      "gray combinations (listed in the input distribution as gray:*) are compared with the model only; the oracle demands nothing there but the frame",
                      "lazy stacks go through the model (Model/C20_Lazy.v) for every stack dim of self, other operands as a lazy stack along any dim / dense / tensorclass / one slice short, out= lazy / lazily stacked tensorclass / dense / one member short, names=, thread pools and apply_; what TensorDict._apply_nest computes on the stacked view (batch_size= without out=) is compared by batch size / device / type only and otherwise by the oracle; aliased operands are checked by the oracle only",
-                     "the model follows /repo (HEAD c481535); the repair of C20-h is detected in the tree under test (ast) and handed to the model as a flag"]
+                     "the model follows /repo with the repairs of C20-g and C20-h (NonTensorData._multithread_rebuild = _apply_nest; a lazily stacked tensorclass as out= of a thread pool) in place: a recurrence of either is a VIOLATION"]
     R.trusted = ["harness/c20_ref.py: the reference (nested dicts) is my reading of the documented contract of apply"]
     t00 = time.time()
     R.step_prove()
